@@ -37,13 +37,37 @@ func (h *H) line(prop, op string) *W {
 	return w.Str(fmt.Sprintf("%s-%d", prop, h.n)).Str(prop).Str(op)
 }
 
+// relined starts the line over (same case id) after the inputs were changed.
+func (h *H) relined(old *W, prop, op string) *W {
+	w := &W{}
+	return w.Str(fmt.Sprintf("%s-%d", prop, h.n)).Str(prop).Str(op)
+}
+
 func (h *H) emit(w *W) {
 	h.out.WriteString(w.String())
 	h.out.WriteByte('\n')
 }
 
+// safely runs f and returns the panic message ("" if none).
+func safely(f func()) (msg string) {
+	defer func() {
+		if r := recover(); r != nil {
+			msg = fmt.Sprint(r)
+			if msg == "" {
+				msg = "panic"
+			}
+		}
+	}()
+	f()
+	return ""
+}
+
 var runners = map[string]func(*H){
 	"C09": runC09,
+	"C10": runC10,
+	"C11": runC11,
+	"C08": runC08,
+	"C04": runC04,
 }
 
 func main() {
